@@ -7,6 +7,9 @@ Line-protocol driver for the C20 model.
   scalar (`-` = key absent, i.e. the Go zero value), `-path` removes a section.  Answer: `ok`,
   `parse` (a value does not fit its Go type) or `err path:kind[;path:kind…]`.
 * `conv` — what the `toInternal` conversions produce for the last configuration.
+* `xconv` — the conversions that resolve cross-references: `ok <stream listeners>` or `xerr stage:what`.
+* `listeners` — stream listeners that reach `Accept` / stay parked on the fresh limiter.
+* `lim stop resume n` — the same for an explicit limiter and `n` listeners.
 * `build` — the start-up constructors: `ok` or `panic …`.
 * `handle is4 tcp respLen` — one query: `served w`, `stuck path` or `panic …`.
 -/
@@ -113,6 +116,13 @@ def setField (c : Config) (k v : String) : Upd :=
   | "server_groups.0.ddr.public_records.tls_port" => num .u16 v fun x => { c with pubTls := x }
   | "interface_listeners.list.eth0_plain_dns.port" => num .u16 v fun x => { c with ilPort0 := x }
   | "interface_listeners.list.eth0_plain_dns_secondary.port" => num .u16 v fun x => { c with ilPort1 := x }
+  | "server_groups.0.filtering_group" => str v fun x => { c with sgFg := x }
+  | "filtering_groups.0.id" => str v fun x => { c with fg0Id := x }
+  | "filtering_groups.0.rule_lists.0" => str v fun x => { c with fg0List0 := x }
+  | "server_groups.0.servers.0.bind_interfaces.0.id" => str v fun x => { c with bi0Id := x }
+  | "server_groups.0.servers.1.protocol" => str v fun x => { c with proto1 := x }
+  | "server_groups.0.servers.2.protocol" => str v fun x => { c with proto2 := x }
+  | "server_groups.0.servers.3.protocol" => str v fun x => { c with proto3 := x }
   | _ => .unknown
 
 def dropSection (c : Config) (k : String) : Option Config :=
@@ -205,12 +215,22 @@ def step (s : S) : List String → S × String
   | ["conv"] =>
     let c := s.c
     (s, s!"cache={showCache (cacheType c)} noecs={c.caSize} ecs={c.caEcs} minttl={c.ttlMin} " ++
-        s!"override={showB c.ttlEnabled} connlim={showB c.clEnabled} " ++
+        s!"override={showB c.ttlEnabled} connlim={if c.clEnabled then s!"1,{c.clStop},{c.clResume}" else "0"} " ++
         s!"hcinit={if c.hcEnabled then c.hcTimeout else 0} " ++
         s!"bk={c.bkCount},{c.bkPeriod},{c.bkDur},{c.est} v4={c.v4Count},{c.v4Ivl},{c.v4Len} " ++
         s!"v6={c.v6Count},{c.v6Ivl},{c.v6Len} tcp={showB c.tcpEnabled},{c.tcpMax} " ++
         s!"quic={showB c.quicEnabled},{c.quicMax} dns={c.dnsRead},{c.dnsWrite},{c.dnsIdle},{c.dnsUdp} " ++
         s!"dot={showB c.tcpEnabled},{c.tcpMax},{c.dnsIdle},{c.dnsRead},{c.dnsWrite}")
+  | ["xconv"] =>
+    match xconv s.c with
+    | .ok n => (s, s!"ok {n}")
+    | .error e => (s, "xerr " ++ e.name)
+  | ["listeners"] =>
+    let r := startListeners s.c
+    (s, s!"{r.1} {r.2}")
+  | ["lim", stop, resume, n] =>
+    let r := limStart (nat! stop) (nat! resume) (nat! n)
+    (s, s!"{r.1} {r.2}")
   | ["build"] =>
     match build s.c with
     | .ok _ => (s, "ok")
